@@ -278,8 +278,11 @@ def early_exits(b):
                 t = b.blocks[u]["term"]
                 if t["k"] == "switch":
                     sh = q.shape(b.expr_of_operand(t["discr"]))
-                    if _re.match(r"^discr\((some\()?[\w:<>]*::next\(", sh) and [a for a in t["arms"] if a[1] == v and a[0] == 0]:
-                        continue
+                    if _re.match(r"^discr\((try\()?[\w:<>]*::next\(", sh):
+                        some_arm = [a for a in t["arms"] if a[0] == 1]
+                        # the None side: an explicit 0 arm, or the `otherwise` of `let Some(x) = it.next() else { .. }`
+                        if [a for a in t["arms"] if a[1] == v and a[0] == 0] or (some_arm and v == t["otherwise"] and v != some_arm[0][1]):
+                            continue
                 if _all_paths_error(b, v, blocks):
                     continue
                 out.append((h, u, v))
